@@ -96,18 +96,142 @@ Section Passes.
     | DDropDirective => included vars [d]
     | DKeep => true
     end.
-  (* no selection set is emptied (the pass would add its "__internal_typename" placeholder) *)
-  Fixpoint sel_ok (s : selection) : bool :=
-    forallb dir_ok (sel_dirs s) &&
-    match s with
-    | SField _ _ _ _ sub | SInline _ _ sub =>
-      forallb sel_ok sub &&
-      match sub, flat_map (is_sel jvars vdefs) sub with _ :: _, [] => false | _, _ => true end
-    | SSpread _ _ => true
-    end.
-
   Lemma included_cons : forall d r, included vars (d :: r) = included vars [d] && included vars r.
   Proof. intros. cbn [included]. rewrite andb_true_r. reflexivity. Qed.
+
+  (* ---- the directive walk (with its skipped positions) only ever drops directives whose verdict is
+          "drop", and reports "remove" only on a directive of the node ---- *)
+  Inductive dsub : list directive -> list directive -> Prop :=
+  | dsub_nil : dsub [] []
+  | dsub_keep : forall d l r, dsub l r -> dsub (d :: l) (d :: r)
+  | dsub_drop : forall d l r, dir_verdict jvars vdefs d = DDropDirective -> dsub l r -> dsub (d :: l) r.
+
+  Lemma dsub_refl : forall l, dsub l l.
+  Proof. induction l; constructor; assumption. Qed.
+  Lemma dsub_del : forall l r1 d r2,
+      dsub l (r1 ++ d :: r2) -> dir_verdict jvars vdefs d = DDropDirective -> dsub l (r1 ++ r2).
+  Proof.
+    intros l r1 d r2 H. remember (r1 ++ d :: r2) as r eqn:E. revert r1 E.
+    induction H as [|x l r H IH|x l r Hx H IH]; intros r1 E Hd.
+    - destruct r1; discriminate.
+    - destruct r1 as [|y r1]; cbn in E; inversion E; subst.
+      + apply dsub_drop; assumption.
+      + cbn. apply dsub_keep. apply IH; [reflexivity|assumption].
+    - apply dsub_drop; [assumption|]. apply IH; assumption.
+  Qed.
+  Lemma dsub_included : forall l r, dsub l r -> forallb dir_ok l = true -> included vars l = included vars r.
+  Proof.
+    induction 1 as [|d l r H IH|d l r Hd H IH]; intro Hok; [reflexivity| |];
+      cbn [forallb] in Hok; apply andb_prop in Hok; destruct Hok as [H1 H2].
+    - rewrite (included_cons d l), (included_cons d r), (IH H2). reflexivity.
+    - rewrite (included_cons d l), (IH H2). unfold dir_ok in H1. rewrite Hd in H1. rewrite H1. reflexivity.
+  Qed.
+
+  Lemma index_of_split : forall id l i,
+      index_of id l = Some i ->
+      exists d, l = firstn i l ++ (id, d) :: skipn (Datatypes.S i) l /\ (i < length l)%nat.
+  Proof.
+    intros id. induction l as [|[j d] r IH]; intros i E; cbn [index_of] in E; [discriminate|].
+    destruct (Nat.eqb id j) eqn:Ej.
+    - inversion E; subst. apply Nat.eqb_eq in Ej. subst. exists d. cbn. split; [reflexivity|lia].
+    - destruct (index_of id r) as [i'|]; [|discriminate]. inversion E; subst.
+      destruct (IH i' eq_refl) as [d' [Hs Hl]]. exists d'. cbn. split; [f_equal; exact Hs|lia].
+  Qed.
+
+  Lemma pair_unique : forall (orig : list (nat * directive)) i d d',
+      NoDup (map fst orig) -> In (i, d) orig -> In (i, d') orig -> d = d'.
+  Proof.
+    induction orig as [|[j x] orig IH]; intros i d d' Hn H1 H2; [destruct H1|].
+    cbn in Hn. inversion Hn as [|? ? Hnotin Hn']; subst.
+    destruct H1 as [H1|H1], H2 as [H2|H2].
+    - inversion H1; inversion H2; subst. reflexivity.
+    - inversion H1; subst. exfalso. apply Hnotin. apply in_map_iff. exists (i, d'). auto.
+    - inversion H2; subst. exfalso. apply Hnotin. apply in_map_iff. exists (i, d). auto.
+    - eapply IH; eassumption.
+  Qed.
+
+  Lemma firstn_del_at : forall (A : Type) i m (b : list A),
+      (i < m)%nat -> (m <= length b)%nat ->
+      firstn (pred m) (del_at i m b) = firstn i (firstn m b) ++ skipn (Datatypes.S i) (firstn m b).
+  Proof.
+    intros A i m b Hi Hm. unfold del_at.
+    assert (E : firstn i b = firstn i (firstn m b)) by (rewrite firstn_firstn; f_equal; lia).
+    rewrite E, app_assoc.
+    assert (L : length (firstn i (firstn m b) ++ skipn (Datatypes.S i) (firstn m b)) = pred m).
+    { rewrite app_length, skipn_length, !firstn_length. lia. }
+    rewrite firstn_app, L, Nat.sub_diag, firstn_O, app_nil_r. rewrite <- L at 1. apply firstn_all.
+  Qed.
+  Lemma del_at_incl : forall (A : Type) i m (b : list A) x, In x (del_at i m b) -> In x b.
+  Proof.
+    intros A i m b x H. unfold del_at in H. apply in_app_or in H. destruct H as [H|H].
+    - rewrite <- (firstn_skipn i b). apply in_or_app. left. exact H.
+    - apply in_app_or in H. destruct H as [H|H].
+      + rewrite <- (firstn_skipn m b). apply in_or_app. left.
+        rewrite <- (firstn_skipn (Datatypes.S i) (firstn m b)). apply in_or_app. right. exact H.
+      + rewrite <- (firstn_skipn (pred m) b). apply in_or_app. right. exact H.
+  Qed.
+  Lemma del_at_length : forall (A : Type) i m (b : list A),
+      (i < m)%nat -> (m <= length b)%nat -> length (del_at i m b) = length b.
+  Proof.
+    intros A i m b Hi Hm. unfold del_at. rewrite !app_length, !skipn_length, !firstn_length. lia.
+  Qed.
+
+  Lemma walk_dirs_spec : forall (orig : list (nat * directive)) ds,
+      NoDup (map fst orig) ->
+      forall todo k m b,
+        (forall p, In p b -> In p orig) -> (m <= length b)%nat ->
+        dsub ds (map snd (firstn m b)) ->
+        match walk_dirs jvars vdefs todo k m b with
+        | Some r => dsub ds r
+        | None => exists d, In d (map snd orig) /\ dir_verdict jvars vdefs d = DRemoveNode
+        end.
+  Proof.
+    intros orig ds Hnd. induction todo as [|t IH]; intros k m b Hin Hm Hs; cbn [walk_dirs]; [exact Hs|].
+    destruct (nth_error b k) as [[id d]|] eqn:En; [|exact Hs].
+    assert (Hd : In (id, d) orig) by (apply Hin; eapply nth_error_In; exact En).
+    destruct (dir_verdict jvars vdefs d) eqn:Ev.
+    - exists d. split; [|exact Ev]. apply in_map_iff. exists (id, d). auto.
+    - destruct (index_of id (firstn m b)) as [i|] eqn:Ei; [|apply IH; assumption].
+      destruct (index_of_split _ _ _ Ei) as [d' [Hsplit Hlen]].
+      assert (Hm' : (i < m)%nat) by (rewrite firstn_length in Hlen; lia).
+      assert (Hd' : In (id, d') orig).
+      { apply Hin. rewrite <- (firstn_skipn m b). apply in_or_app. left. rewrite Hsplit. apply in_or_app. right. left. reflexivity. }
+      assert (d' = d) by (eapply pair_unique; eassumption). subst d'.
+      apply IH.
+      + intros p Hp. apply Hin. eapply del_at_incl. exact Hp.
+      + rewrite del_at_length by assumption. lia.
+      + rewrite firstn_del_at by assumption. rewrite map_app.
+        rewrite Hsplit, map_app in Hs. cbn [map snd] in Hs.
+        eapply dsub_del; [exact Hs|exact Ev].
+    - apply IH; assumption.
+  Qed.
+
+  Lemma combine_seq_fst : forall (A : Type) (l : list A) s, map fst (combine (seq s (length l)) l) = seq s (length l).
+  Proof. induction l as [|x l IH]; intros s; cbn; [reflexivity|]. rewrite IH. reflexivity. Qed.
+  Lemma combine_seq_snd : forall (A : Type) (l : list A) s, map snd (combine (seq s (length l)) l) = l.
+  Proof. induction l as [|x l IH]; intros s; cbn; [reflexivity|]. rewrite IH. reflexivity. Qed.
+
+  Lemma eval_dirs_spec : forall ds,
+      match eval_dirs jvars vdefs ds with
+      | Some r => dsub ds r
+      | None => exists d, In d ds /\ dir_verdict jvars vdefs d = DRemoveNode
+      end.
+  Proof.
+    intro ds. unfold eval_dirs.
+    pose proof (walk_dirs_spec (combine (seq O (length ds)) ds) ds) as H.
+    rewrite combine_seq_fst, combine_seq_snd in H.
+    specialize (H (seq_NoDup _ _) (length ds) O (length ds) (combine (seq O (length ds)) ds) (fun p Hp => Hp)).
+    rewrite combine_length, seq_length, Nat.min_id in H. specialize (H (le_n _)).
+    rewrite firstn_all2 in H by (rewrite combine_length, seq_length, Nat.min_id; lia).
+    rewrite combine_seq_snd in H. exact (H (dsub_refl ds)).
+  Qed.
+
+  Lemma included_false_in : forall ds d, In d ds -> included vars [d] = false -> included vars ds = false.
+  Proof.
+    induction ds as [|x r IH]; intros d Hin Hf; [destruct Hin|].
+    rewrite (included_cons x r). destruct Hin as [E|Hin]; [subst; rewrite Hf; reflexivity|].
+    rewrite (IH d Hin Hf). apply andb_false_r.
+  Qed.
 
   Lemma eval_dirs_included : forall ds,
       forallb dir_ok ds = true ->
@@ -116,77 +240,219 @@ Section Passes.
       | None => included vars ds = false
       end.
   Proof.
-    induction ds as [|d r IH]; intro H; [reflexivity|].
-    cbn [forallb] in H. apply andb_prop in H. destruct H as [Hd Hr]. specialize (IH Hr).
-    cbn [eval_dirs]. unfold dir_ok in Hd. rewrite (included_cons d r).
-    destruct (dir_verdict jvars vdefs d).
-    - apply negb_true_iff in Hd. rewrite Hd. reflexivity.
-    - rewrite Hd. cbn. exact IH.
-    - destruct (eval_dirs jvars vdefs r) as [r'|].
-      + rewrite (included_cons d r'). rewrite IH. reflexivity.
-      + rewrite IH. apply andb_false_r.
+    intros ds Hok. pose proof (eval_dirs_spec ds) as H.
+    destruct (eval_dirs jvars vdefs ds) as [r|].
+    - apply dsub_included; assumption.
+    - destruct H as [d [Hin Hv]]. apply (included_false_in ds d Hin).
+      rewrite forallb_forall in Hok. specialize (Hok d Hin). unfold dir_ok in Hok. rewrite Hv in Hok.
+      apply negb_true_iff in Hok. exact Hok.
   Qed.
 
-  Lemma is_list_flat_map : forall l,
-      (fix go (l : list selection) : list selection :=
-         match l with [] => [] | x :: r => is_sel jvars vdefs x ++ go r end) l = flat_map (is_sel jvars vdefs) l.
-  Proof. induction l; cbn; [reflexivity|]. rewrite IHl. reflexivity. Qed.
+  (* ---- what a walk (with its restarts) can do to a selection set ---- *)
+  Definition has_remove (ds : list directive) : Prop :=
+    exists d, In d ds /\ dir_verdict jvars vdefs d = DRemoveNode.
 
-  Definition close_sub (orig res : list selection) : list selection :=
-    match orig, res with _ :: _, [] => [placeholder] | _, _ => res end.
-  Lemma is_sel_cases : forall s,
-      is_sel jvars vdefs s =
+  Inductive orel : selection -> selection -> Prop :=
+  | or_field : forall a n args ds ds' sub sub',
+      dsub ds ds' -> olist sub sub' -> orel (SField a n args ds sub) (SField a n args ds' sub')
+  | or_inline : forall c ds ds' sub sub',
+      dsub ds ds' -> olist sub sub' -> orel (SInline c ds sub) (SInline c ds' sub')
+  | or_spread : forall n ds ds', dsub ds ds' -> orel (SSpread n ds) (SSpread n ds')
+  with olist : list selection -> list selection -> Prop :=
+  | ol_nil : olist [] []
+  | ol_keep : forall s s' l l', orel s s' -> olist l l' -> olist (s :: l) (s' :: l')
+  | ol_drop : forall s l l', has_remove (sel_dirs s) -> olist l l' -> olist (s :: l) l'
+  | ol_ph : forall s l, olist (s :: l) [] -> olist (s :: l) [placeholder].
+
+  Scheme orel_min := Minimality for orel Sort Prop
+    with olist_min := Minimality for olist Sort Prop.
+  Combined Scheme orel_olist_min from orel_min, olist_min.
+
+  Lemma dsub_trans : forall a b, dsub a b -> forall c, dsub b c -> dsub a c.
+  Proof.
+    induction 1 as [|d l r H IH|d l r Hd H IH]; intros c Hc.
+    - exact Hc.
+    - inversion Hc; subst; [apply dsub_keep; auto|apply dsub_drop; auto].
+    - apply dsub_drop; auto.
+  Qed.
+  Lemma dsub_in : forall a b, dsub a b -> forall d, In d b -> In d a.
+  Proof.
+    induction 1 as [|x l r H IH|x l r Hd H IH]; intros d Hin; [exact Hin| |right; auto].
+    destruct Hin as [E|Hin]; [left; exact E|right; auto].
+  Qed.
+  Lemma has_remove_dsub : forall a b, dsub a b -> has_remove b -> has_remove a.
+  Proof. intros a b H [d [Hin Hv]]. exists d. split; [eapply dsub_in; eassumption|exact Hv]. Qed.
+  Lemma orel_dirs : forall s s', orel s s' -> dsub (sel_dirs s) (sel_dirs s').
+  Proof. intros s s' H; destruct H; cbn; assumption. Qed.
+
+  Lemma orel_refl : forall s, orel s s.
+  Proof.
+    induction s using sel_ind'.
+    - apply or_field; [apply dsub_refl|]. induction H; [apply ol_nil|apply ol_keep; assumption].
+    - apply or_inline; [apply dsub_refl|]. induction H; [apply ol_nil|apply ol_keep; assumption].
+    - apply or_spread. apply dsub_refl.
+  Qed.
+  Lemma olist_refl : forall l, olist l l.
+  Proof. induction l; [apply ol_nil|apply ol_keep; [apply orel_refl|assumption]]. Qed.
+
+  Lemma olist_nil_inv : forall l, olist [] l -> l = [].
+  Proof. intros l H. inversion H. reflexivity. Qed.
+  Lemma dsub_nil_inv : forall r, dsub [] r -> r = [].
+  Proof. intros r H. inversion H. reflexivity. Qed.
+  Lemma orel_placeholder : forall x, orel placeholder x -> x = placeholder.
+  Proof.
+    intros x H. unfold placeholder in *. inversion H; subst.
+    match goal with Hd : dsub [] _ |- _ => apply dsub_nil_inv in Hd; subst end.
+    match goal with Ho : olist [] _ |- _ => apply olist_nil_inv in Ho; subst end. reflexivity.
+  Qed.
+
+  Lemma orel_olist_trans :
+    (forall s s', orel s s' -> forall s'', orel s' s'' -> orel s s'') /\
+    (forall l l', olist l l' -> forall l'', olist l' l'' -> olist l l'').
+  Proof.
+    apply orel_olist_min.
+    - intros a n args ds ds' sub sub' Hd Hs IHs s'' H2. inversion H2; subst.
+      apply or_field; [eapply dsub_trans; eassumption|auto].
+    - intros c ds ds' sub sub' Hd Hs IHs s'' H2. inversion H2; subst.
+      apply or_inline; [eapply dsub_trans; eassumption|auto].
+    - intros n ds ds' Hd s'' H2. inversion H2; subst. apply or_spread. eapply dsub_trans; eassumption.
+    - intros l'' H2. apply olist_nil_inv in H2. subst. apply ol_nil.
+    - intros s s' l l' Hs IHs Hl IHl l'' H2. inversion H2 as [|? s'' ? l3 Hs2 Hl2|? ? ? Hr Hl2|? ? Hempty]; subst.
+      + apply ol_keep; auto.
+      + apply ol_drop; [eapply has_remove_dsub; [apply orel_dirs; exact Hs|exact Hr]|auto].
+      + apply ol_ph. inversion Hempty as [| |? ? ? Hr Hl2|]; subst.
+        apply ol_drop; [eapply has_remove_dsub; [apply orel_dirs; exact Hs|exact Hr]|auto].
+    - intros s l l' Hr Hl IHl l'' H2. apply ol_drop; auto.
+    - intros s l Hempty IH l'' H2.
+      inversion H2 as [|? s'' ? l3 Hs2 Hl2|? ? ? Hr Hl2|? ? Hempty2]; subst.
+      + apply orel_placeholder in Hs2. apply olist_nil_inv in Hl2. subst. apply ol_ph. exact Hempty.
+      + destruct Hr as [d [[] _]].
+      + inversion Hempty2 as [| |? ? ? Hr Hl2|]; subst. destruct Hr as [d [[] _]].
+  Qed.
+  Definition olist_trans := proj2 orel_olist_trans.
+
+  (* ---- the functions are in the relation ---- *)
+  Fixpoint is_pass (f : nat) (l : list selection) : list selection * bool :=
+    match l with
+    | [] => ([], false)
+    | s :: r =>
+      match is_node jvars vdefs f s with
+      | None => (r, true)
+      | Some s' => let '(r', b) := is_pass f r in (s' :: r', b)
+      end
+    end.
+  Definition after_removal (l' : list selection) : list selection :=
+    match l' with [] => [placeholder] | _ :: _ => l' end.
+  Lemma is_set_S : forall f l,
+      is_set jvars vdefs (Datatypes.S f) l =
+      let '(l', removed) := is_pass f l in
+      if removed then is_set jvars vdefs f (after_removal l') else l'.
+  Proof.
+    intros f l. cbn [is_set].
+    assert (E : forall l0, (fix pass (l : list selection) : list selection * bool :=
+                              match l with
+                              | [] => ([], false)
+                              | s :: r =>
+                                match is_node jvars vdefs f s with
+                                | None => (r, true)
+                                | Some s' => let '(r', b) := pass r in (s' :: r', b)
+                                end
+                              end) l0 = is_pass f l0).
+    { induction l0 as [|s r IH]; [reflexivity|]. cbn [is_pass]. rewrite <- IH. reflexivity. }
+    rewrite E. reflexivity.
+  Qed.
+  Lemma is_node_S : forall f s,
+      is_node jvars vdefs (Datatypes.S f) s =
       match eval_dirs jvars vdefs (sel_dirs s) with
-      | None => []
+      | None => None
       | Some ds' =>
-        match s with
-        | SField a n args _ sub => [SField a n args ds' (close_sub sub (flat_map (is_sel jvars vdefs) sub))]
-        | SInline c _ sub => [SInline c ds' (close_sub sub (flat_map (is_sel jvars vdefs) sub))]
-        | SSpread f _ => [SSpread f ds']
-        end
+        Some (match s with
+              | SField a n args _ sub => SField a n args ds' (is_set jvars vdefs f sub)
+              | SInline c _ sub => SInline c ds' (is_set jvars vdefs f sub)
+              | SSpread fn _ => SSpread fn ds'
+              end)
       end.
+  Proof. intros f s. destruct s; cbn [is_node sel_dirs]; destruct (eval_dirs jvars vdefs _); reflexivity. Qed.
+
+  Lemma is_pass_rel : forall f,
+      (forall s, match is_node jvars vdefs f s with Some s' => orel s s' | None => has_remove (sel_dirs s) end) ->
+      forall l, olist l (fst (is_pass f l)) /\ (snd (is_pass f l) = true -> l <> []).
   Proof.
-    destruct s as [a n args ds sub|c ds sub|f ds]; cbn [is_sel sel_dirs]; rewrite ?is_list_flat_map;
-      destruct (eval_dirs jvars vdefs ds); reflexivity.
+    intros f HA. induction l as [|s r [IH1 IH2]]; cbn [is_pass]; [split; [apply ol_nil|discriminate]|].
+    specialize (HA s). destruct (is_node jvars vdefs f s) as [s'|].
+    - destruct (is_pass f r) as [r' b]. cbn in *. split; [apply ol_keep; assumption|discriminate].
+    - cbn. split; [apply ol_drop; [exact HA|apply olist_refl]|discriminate].
   Qed.
 
-  Lemma is_lrel_aux : forall l, Forall (fun s => sel_ok s = true -> lrel [s] (is_sel jvars vdefs s)) l ->
-                                forallb sel_ok l = true -> lrel l (flat_map (is_sel jvars vdefs) l).
+  Lemma is_walk_rel : forall f,
+      (forall s, match is_node jvars vdefs f s with Some s' => orel s s' | None => has_remove (sel_dirs s) end) /\
+      (forall l, olist l (is_set jvars vdefs f l)).
   Proof.
-    induction 1 as [|s l Hs Hl IH]; intro Hok; cbn; [apply lr_nil|].
-    cbn in Hok. apply andb_prop in Hok. destruct Hok as [H1 H2].
-    change (s :: l) with ([s] ++ l). apply lrel_app; auto.
+    induction f as [|f [IHA IHB]].
+    - split; [intro s; apply orel_refl|intro l; apply olist_refl].
+    - split.
+      + intro s. rewrite is_node_S. pose proof (eval_dirs_spec (sel_dirs s)) as HE.
+        destruct (eval_dirs jvars vdefs (sel_dirs s)) as [ds'|]; [|exact HE].
+        destruct s; cbn [sel_dirs] in *; [apply or_field|apply or_inline|apply or_spread]; auto.
+      + intro l. rewrite is_set_S. destruct (is_pass_rel f IHA l) as [H1 H2].
+        destruct (is_pass f l) as [l' removed]. cbn in H1, H2. destruct removed; [|exact H1].
+        eapply olist_trans; [|apply IHB].
+        unfold after_removal. destruct l' as [|x l']; [|exact H1].
+        destruct l as [|s l]; [exfalso; apply (H2 eq_refl); reflexivity|]. apply ol_ph. exact H1.
   Qed.
 
-  Lemma is_srel : forall s, sel_ok s = true -> lrel [s] (is_sel jvars vdefs s).
+  (* ---- from the outcome relation to the executor's relation ---- *)
+  Fixpoint dirs_ok_sel (s : selection) : bool :=
+    forallb dir_ok (sel_dirs s) &&
+    match s with
+    | SField _ _ _ _ sub | SInline _ _ sub => forallb dirs_ok_sel sub
+    | SSpread _ _ => true
+    end.
+  (* no "__internal_typename" placeholder anywhere *)
+  Fixpoint nph_sel (s : selection) : bool :=
+    match s with
+    | SField a _ _ _ sub =>
+      match a with Some x => negb (bytes_eqb x s_internal_typename) | None => true end && forallb nph_sel sub
+    | SInline _ _ sub => forallb nph_sel sub
+    | SSpread _ _ => true
+    end.
+
+  Lemma has_remove_excluded : forall ds, forallb dir_ok ds = true -> has_remove ds -> included vars ds = false.
   Proof.
-    induction s using sel_ind'; intro Hok; rewrite is_sel_cases; cbn [sel_ok sel_dirs] in *;
-      apply andb_prop in Hok; destruct Hok as [Hd Hrest];
-      pose proof (eval_dirs_included _ Hd) as HE; destruct (eval_dirs jvars vdefs ds) as [ds'|].
-    - apply andb_prop in Hrest. destruct Hrest as [Hsub Hne].
-      apply lr_cons; [|apply lr_nil]. apply sr_field; [reflexivity|exact HE|].
-      pose proof (is_lrel_aux sub H Hsub) as HL. unfold close_sub.
-      destruct sub as [|x r]; [exact HL|]. destruct (flat_map (is_sel jvars vdefs) (x :: r)); [discriminate|exact HL].
-    - apply lr_drop; [exact HE|apply lr_nil].
-    - apply andb_prop in Hrest. destruct Hrest as [Hsub Hne].
-      apply lr_cons; [|apply lr_nil]. apply sr_inline; [exact HE|].
-      pose proof (is_lrel_aux sub H Hsub) as HL. unfold close_sub.
-      destruct sub as [|x r]; [exact HL|]. destruct (flat_map (is_sel jvars vdefs) (x :: r)); [discriminate|exact HL].
-    - apply lr_drop; [exact HE|apply lr_nil].
-    - apply lr_cons; [|apply lr_nil]. apply sr_spread. exact HE.
-    - apply lr_drop; [exact HE|apply lr_nil].
+    intros ds Hok [d [Hin Hv]]. apply (included_false_in ds d Hin).
+    rewrite forallb_forall in Hok. specialize (Hok d Hin). unfold dir_ok in Hok. rewrite Hv in Hok.
+    apply negb_true_iff in Hok. exact Hok.
   Qed.
 
-  Definition sels_ok (l : list selection) : bool :=
-    forallb sel_ok l && match l, flat_map (is_sel jvars vdefs) l with _ :: _, [] => false | _, _ => true end.
-
-  Lemma is_sels_lrel : forall l, sels_ok l = true -> lrel l (is_sels jvars vdefs l).
+  Lemma orel_olist_lrel :
+    (forall s s', orel s s' -> dirs_ok_sel s = true -> nph_sel s' = true -> srel s s') /\
+    (forall l l', olist l l' -> forallb dirs_ok_sel l = true -> forallb nph_sel l' = true -> lrel l l').
   Proof.
-    intros l H. unfold sels_ok in H. apply andb_prop in H. destruct H as [H1 H2].
-    assert (HL : lrel l (flat_map (is_sel jvars vdefs) l)).
-    { apply is_lrel_aux; [|exact H1]. apply Forall_forall. intros s _. apply is_srel. }
-    unfold is_sels. destruct l as [|x r]; [exact HL|].
-    destruct (flat_map (is_sel jvars vdefs) (x :: r)); [discriminate|exact HL].
+    apply orel_olist_min.
+    - intros a n args ds ds' sub sub' Hd Hs IHs Hok Hn. cbn in Hok, Hn.
+      apply andb_prop in Hok. destruct Hok as [Ho1 Ho2]. apply andb_prop in Hn. destruct Hn as [_ Hn2].
+      apply sr_field; [reflexivity|apply dsub_included; assumption|auto].
+    - intros c ds ds' sub sub' Hd Hs IHs Hok Hn. cbn in Hok, Hn.
+      apply andb_prop in Hok. destruct Hok as [Ho1 Ho2].
+      apply sr_inline; [apply dsub_included; assumption|auto].
+    - intros n ds ds' Hd Hok Hn. cbn in Hok. apply andb_prop in Hok. destruct Hok as [Ho1 _].
+      apply sr_spread. apply dsub_included; assumption.
+    - intros _ _. apply lr_nil.
+    - intros s s' l l' Hs IHs Hl IHl Hok Hn. cbn in Hok, Hn.
+      apply andb_prop in Hok. destruct Hok as [Ho1 Ho2]. apply andb_prop in Hn. destruct Hn as [Hn1 Hn2].
+      apply lr_cons; auto.
+    - intros s l l' Hr Hl IHl Hok Hn. cbn in Hok. apply andb_prop in Hok. destruct Hok as [Ho1 Ho2].
+      apply lr_drop; [|auto].
+      apply has_remove_excluded; [|exact Hr]. destruct s; cbn in Ho1 |- *; apply andb_prop in Ho1; tauto.
+    - intros s l Hempty IH Hok Hn. exfalso. vm_compute in Hn. discriminate.
+  Qed.
+
+  Lemma is_sels_lrel : forall fuel l,
+      forallb dirs_ok_sel l = true -> forallb nph_sel (is_sels jvars vdefs fuel l) = true ->
+      lrel l (is_sels jvars vdefs fuel l).
+  Proof.
+    intros fuel l H1 H2. apply (proj2 orel_olist_lrel); [|exact H1|exact H2].
+    apply (proj2 (is_walk_rel fuel)).
   Qed.
 End Passes.
 
@@ -241,16 +507,21 @@ Proof.
 Qed.
 
 (* directive_include_skip *)
+(* hypothesis of the @skip/@include theorem, for the executed operation: the pass' verdict on every
+   directive agrees with the executor's evaluation, and the result holds no placeholder *)
 Definition include_skip_ok (jvars vars : list (bytes * json)) (d : document) : bool :=
   let vdefs := doc_vardefs d in
+  let fuel := include_skip_fuel d in
   forallb (fun def => match def with
-                      | DOp o => sels_ok vars jvars vdefs (op_sels o)
-                      | DFrag f => sels_ok vars jvars vdefs (fr_sels f)
+                      | DOp o => forallb (dirs_ok_sel vars jvars vdefs) (op_sels o) &&
+                                 forallb nph_sel (is_sels jvars vdefs fuel (op_sels o))
+                      | DFrag f => forallb (dirs_ok_sel vars jvars vdefs) (fr_sels f) &&
+                                   forallb nph_sel (is_sels jvars vdefs fuel (fr_sels f))
                       end) d.
 
 Lemma include_skip_rewrite : forall jv d,
-    include_skip jv d = doc_rewrite (fun o => is_sels jv (doc_vardefs d) (op_sels o))
-                                    (fun f => is_sels jv (doc_vardefs d) (fr_sels f)) d.
+    include_skip jv d = doc_rewrite (fun o => is_sels jv (doc_vardefs d) (include_skip_fuel d) (op_sels o))
+                                    (fun f => is_sels jv (doc_vardefs d) (include_skip_fuel d) (fr_sels f)) d.
 Proof. reflexivity. Qed.
 
 Lemma In_doc_ops : forall d o, In o (doc_ops d) -> In (DOp o) d.
@@ -267,8 +538,10 @@ Theorem include_skip_preserves_exec_partial : forall S U d fuel opn v,
     resp_le (execute fuel S U Mono d opn v) (execute fuel S U Mono (include_skip (obj_members v) d) opn v).
 Proof.
   intros S U d fuel opn v H. rewrite include_skip_rewrite. apply execute_rewrite.
-  intros o Ho. specialize (H o Ho). unfold include_skip_ok in H. rewrite forallb_forall in H.
+  intros o Ho. specialize (H o Ho). unfold include_skip_ok in H. cbv zeta in H. rewrite forallb_forall in H.
   split.
-  - intros x Hx. apply is_sels_lrel. exact (H _ (In_doc_ops _ _ Hx)).
-  - intros x Hx. apply is_sels_lrel. exact (H _ (In_doc_frags _ _ Hx)).
+  - intros x Hx. pose proof (H _ (In_doc_ops _ _ Hx)) as Hd. apply andb_prop in Hd. destruct Hd as [H1 H2].
+    apply is_sels_lrel; assumption.
+  - intros x Hx. pose proof (H _ (In_doc_frags _ _ Hx)) as Hd. apply andb_prop in Hd. destruct Hd as [H1 H2].
+    apply is_sels_lrel; assumption.
 Qed.
